@@ -9,7 +9,7 @@
    (evidence: spec_drift_notes) and never turns into a verdict.
 
    Scope: everything outside the host parser, plus the host parser's errors for opaque hosts and for trivial domains (pure ASCII, no ACE
-   label) including the IPv4 parser; IPv6 literals and IDNA-dependent domains are reported as "unknown" and not compared. *)
+   label) including the IPv4 parser, and the IPv6 parser's fatal errors; IDNA-dependent domains are reported as "unknown" and not compared. *)
 EXTENDS BasicParser
 
 InvalidUnitAt(in, i) == LET c == in[i] IN (~IsUrlCp(c) /\ c # 37) \/ (c = 37 /\ ~IsPctTriple(in, i))
@@ -31,10 +31,44 @@ V4Ve(ad) ==
          ELSE IF \E i \in 1..n : nums[i] = None THEN <<"IPv4NonNumericPart">>
          ELSE (IF \E i \in 1..n : V4NumVe(parts[i]) THEN <<"IPv4NonDecimalPart">> ELSE <<>>)
               \o (IF ParseIPv4(ad) = None \/ \E i \in 1..n : Len(Get(nums[i])) > 1 THEN <<"IPv4OutOfRangePart">> ELSE <<>>))   \* any part above 255, the last one included
+(* the IPv6 parser's (fatal) validation error: "" when the address parses; mirrors Host!V6Main / V6V4 exit by exit *)
+RECURSIVE V6V4Err(_, _, _)
+V6V4Err(in, p, seen) ==
+  IF C6(in, p) = EOF THEN (IF seen = 4 THEN "" ELSE "IPv4InIPv6TooFewParts")
+  ELSE LET sepOk == seen = 0 \/ (C6(in, p) = 46 /\ seen < 4)
+           p1 == IF seen > 0 THEN p + 1 ELSE p
+       IN IF ~sepOk \/ ~IsDigit(C6(in, p1)) THEN "IPv4InIPv6InvalidCodePoint"
+          ELSE LET r == V6DecRun(in, p1, -1) IN
+               IF r[1] = -2 THEN (IF C6(in, r[2] - 1) = 48 /\ (r[2] - 1 = p1) THEN "IPv4InIPv6InvalidCodePoint" ELSE "IPv4InIPv6OutOfRangePart")
+               ELSE V6V4Err(in, r[2], seen + 1)
+RECURSIVE V6MainErr(_, _, _, _)
+V6MainErr(in, p, pi, comp) ==
+  IF C6(in, p) = EOF THEN (IF comp = 0 /\ pi # 9 THEN "IPv6TooFewPieces" ELSE "")
+  ELSE IF pi = 9 THEN "IPv6TooManyPieces"
+  ELSE IF C6(in, p) = 58 THEN (IF comp # 0 THEN "IPv6MultipleCompression" ELSE V6MainErr(in, p + 1, pi + 1, pi + 1))
+  ELSE LET hr == V6HexRun(in, p, 0, 0)
+           length == hr[2]  p1 == hr[3]
+       IN IF C6(in, p1) = 46 THEN
+            (IF length = 0 THEN "IPv4InIPv6InvalidCodePoint"
+             ELSE IF pi > 7 THEN "IPv4InIPv6TooManyPieces"
+             ELSE LET e == V6V4Err(in, p1 - length, 0) IN
+                  IF e # "" THEN e
+                  ELSE IF comp = 0 /\ pi + 2 # 9 THEN "IPv6TooFewPieces" ELSE "")
+          ELSE IF C6(in, p1) = 58 THEN (IF C6(in, p1 + 1) = EOF THEN "IPv6InvalidCodePoint" ELSE V6MainErr(in, p1 + 1, pi + 1, comp))
+          ELSE IF C6(in, p1) # EOF THEN "IPv6InvalidCodePoint"
+          ELSE V6MainErr(in, p1, pi + 1, comp)
+V6Err(in) ==
+  IF C6(in, 1) = 58 /\ C6(in, 2) # 58 THEN "IPv6InvalidCompression"
+  ELSE IF C6(in, 1) = 58 THEN V6MainErr(in, 3, 2, 2) ELSE V6MainErr(in, 1, 1, 0)
+
 HostVe(o, buf, isOpaque) ==      \* <<known, list>>
   LET h == PreHost(o, buf) IN
   IF h = <<>> THEN <<TRUE, <<>>>>
-  ELSE IF h[1] = 91 THEN <<FALSE, <<>>>>
+  ELSE IF h[1] = 91 THEN
+     (IF Last(h) # 93 THEN <<TRUE, <<"IPv6Unclosed">>>>
+      ELSE LET e == V6Err(SubSeq(h, 2, Len(h) - 1)) IN
+           IF (e = "") # (ParseIPv6(SubSeq(h, 2, Len(h) - 1)) # None) THEN <<FALSE, <<>>>>      \* the classifier must agree with the parser it mirrors
+           ELSE <<TRUE, IF e = "" THEN <<>> ELSE <<e>>>>)
   ELSE IF isOpaque THEN
      (IF \E i \in 1..Len(h) : IsForbiddenHost(h[i]) THEN <<TRUE, <<"HostInvalidCodePoint">>>>
       ELSE <<TRUE, IF \E i \in 1..Len(h) : InvalidUnitAt(h, i) THEN <<"InvalidURLUnit">> ELSE <<>>>>)
